@@ -474,7 +474,8 @@ class ProjectData(sc.prettyobj):
         for pop in self.pops.values():
             if pd.isna(pop["type"]):
                 pop["type"] = self._pop_types[0]
-            assert pop["type"] in self._pop_types, 'Error in population "%s": population type "%s" not found in framework. If the framework defines a non-default population type, then it must be explicitly specified in databooks and program books.' % (pop["label"], pop["type"])
+            if not (pop["type"] in self._pop_types):
+                raise InvalidDatabook('Error in population "%s": population type "%s" not found in framework. If the framework defines a non-default population type, then it must be explicitly specified in databooks and program books.' % (pop["label"], pop["type"]))
 
         for obj_type, df in zip(["comps", "characs", "pars"], [framework.comps, framework.characs, framework.pars]):
             for spec_name, spec in zip(df.index, df.to_dict(orient="records")):
@@ -501,7 +502,8 @@ class ProjectData(sc.prettyobj):
                         tdve = self.tdve[spec_name]
                         tdve_sheet = self.get_tdve_page(spec_name)
                         location = 'Error in TDVE table "%s" on sheet "%s"' % (tdve.name, tdve_sheet)
-                        assert tdve.pop_type in self._pop_types, '%s. Population type "%s" did not match any in the framework' % (location, tdve.pop_type)
+                        if not (tdve.pop_type in self._pop_types):
+                            raise InvalidDatabook('%s. Population type "%s" did not match any in the framework' % (location, tdve.pop_type))
                         required_pops = {x for x, y in self.pops.items() if y["type"] == tdve.pop_type}  # The TDVE should contain values for all populations of that type, otherwise cannot construct the ParameterSet. Check that these populations are all present
 
                         # Check that data is available for all populations. If the TDVE table contains an entry for 'all'
@@ -513,46 +515,64 @@ class ProjectData(sc.prettyobj):
                                 raise InvalidDatabook("%s. The following populations were not supplied but are required: %s" % (location, missing_pops))
 
                         for name, ts in self.tdve[spec_name].ts.items():
-                            assert ts.has_data, "%s. Data values missing for %s (%s)" % (location, tdve.name, name)
-                            assert ts.units is not None, "%s. Units missing for %s (%s)" % (location, tdve.name, name)
+                            if not (ts.has_data):
+                                raise InvalidDatabook("%s. Data values missing for %s (%s)" % (location, tdve.name, name))
+                            if not (ts.units is not None):
+                                raise InvalidDatabook("%s. Units missing for %s (%s)" % (location, tdve.name, name))
                             if ts.units.strip().lower() != framework_units.strip().lower():
                                 # If the units don't match the framework's 'databook' units, see if they at least match the standard unit (for legacy databooks)
                                 # For compartments and characteristics, the units must match exactly
                                 if obj_type in ["comps", "characs"] or ("format" in spec and spec["format"] is not None and ts.units.lower().strip() != spec["format"].lower().strip()):
-                                    assert ts.units == framework_units, '%s. Unit "%s" for %s (%s) does not match the declared units from the Framework (expecting "%s")' % (location, ts.units, tdve.name, name, framework_units)
+                                    if not (ts.units == framework_units):
+                                        raise InvalidDatabook('%s. Unit "%s" for %s (%s) does not match the declared units from the Framework (expecting "%s")' % (location, ts.units, tdve.name, name, framework_units))
                             if obj_type == "par" and spec["timed"] == "y":
-                                assert not ts.has_time_data, "%s. Parameter %s (%s) is marked as a timed transition in the Framework, so it must have a constant value (i.e., the databook cannot contain time-dependent values for this parameter)" % (location, tdve.name, name)
+                                if ts.has_time_data:
+                                    raise InvalidDatabook("%s. Parameter %s (%s) is marked as a timed transition in the Framework, so it must have a constant value (i.e., the databook cannot contain time-dependent values for this parameter)" % (location, tdve.name, name))
 
         for tdc in self.interpops + self.transfers:
             if tdc.from_pop_type is None:  # Supply default pop type
                 tdc.from_pop_type = self._pop_types[0]
-            assert tdc.from_pop_type in self._pop_types, 'Error in transfer/interaction "%s": from population type "%s" not found in framework. If the framework defines a non-default population type, then it must be explicitly specified in databooks and program books.' % (tdc.full_name, tdc.from_pop_type)
+            if not (tdc.from_pop_type in self._pop_types):
+                raise InvalidDatabook('Error in transfer/interaction "%s": from population type "%s" not found in framework. If the framework defines a non-default population type, then it must be explicitly specified in databooks and program books.' % (tdc.full_name, tdc.from_pop_type))
             if tdc.to_pop_type is None:  # Supply default pop type
                 tdc.to_pop_type = self._pop_types[0]
-            assert tdc.to_pop_type in self._pop_types, 'Error in transfer/interaction "%s": to population type "%s" not found in framework. If the framework defines a non-default population type, then it must be explicitly specified in databooks and program books.' % (tdc.full_name, tdc.to_pop_type)
+            if not (tdc.to_pop_type in self._pop_types):
+                raise InvalidDatabook('Error in transfer/interaction "%s": to population type "%s" not found in framework. If the framework defines a non-default population type, then it must be explicitly specified in databooks and program books.' % (tdc.full_name, tdc.to_pop_type))
 
         for _, spec in framework.interactions.iterrows():
             for tdc in self.interpops:
                 if tdc.code_name == spec.name:
                     for (from_pop, to_pop), ts in tdc.ts.items():
-                        assert to_pop in self.pops, 'Population "%s" in "%s" not recognized. Should be one of: %s' % (to_pop, spec.name, self.pops.keys())
-                        assert self.pops[to_pop]["type"] == tdc.to_pop_type, 'Interaction "%s" has to-population type "%s", but contains Population "%s", which is type "%s"' % (tdc.full_name, tdc.to_pop_type, to_pop, self.pops[to_pop]["type"])
-                        assert from_pop in self.pops, 'Population "%s" in "%s" not recognized. Should be one of: %s' % (from_pop, spec.name, self.pops.keys())
-                        assert self.pops[from_pop]["type"] == tdc.from_pop_type, 'Interaction "%s" has from-population type "%s", but contains Population "%s", which is type "%s"' % (tdc.full_name, tdc.from_pop_type, from_pop, self.pops[from_pop]["type"])
-                        assert ts.has_data, "Data values missing for interaction %s, %s->%s" % (spec.name, to_pop, from_pop)
-                        assert ts.units.lower().title() == FS.DEFAULT_SYMBOL_INAPPLICABLE.lower().title(), 'Units error in interaction %s, %s->%s. Interaction units must be "N.A."' % (spec.name, to_pop, from_pop)
+                        if not (to_pop in self.pops):
+                            raise InvalidDatabook('Population "%s" in "%s" not recognized. Should be one of: %s' % (to_pop, spec.name, self.pops.keys()))
+                        if not (self.pops[to_pop]["type"] == tdc.to_pop_type):
+                            raise InvalidDatabook('Interaction "%s" has to-population type "%s", but contains Population "%s", which is type "%s"' % (tdc.full_name, tdc.to_pop_type, to_pop, self.pops[to_pop]["type"]))
+                        if not (from_pop in self.pops):
+                            raise InvalidDatabook('Population "%s" in "%s" not recognized. Should be one of: %s' % (from_pop, spec.name, self.pops.keys()))
+                        if not (self.pops[from_pop]["type"] == tdc.from_pop_type):
+                            raise InvalidDatabook('Interaction "%s" has from-population type "%s", but contains Population "%s", which is type "%s"' % (tdc.full_name, tdc.from_pop_type, from_pop, self.pops[from_pop]["type"]))
+                        if not (ts.has_data):
+                            raise InvalidDatabook("Data values missing for interaction %s, %s->%s" % (spec.name, to_pop, from_pop))
+                        if not (ts.units.lower().title() == FS.DEFAULT_SYMBOL_INAPPLICABLE.lower().title()):
+                            raise InvalidDatabook('Units error in interaction %s, %s->%s. Interaction units must be "N.A."' % (spec.name, to_pop, from_pop))
                     break
             else:
                 raise InvalidDatabook('Required interaction "%s" not found in databook' % spec.name)
 
         for tdc in self.transfers:
             for (from_pop, to_pop), ts in tdc.ts.items():
-                assert to_pop in self.pops, 'Population "%s" in "%s" not recognized. Should be one of: %s' % (to_pop, tdc.full.name, self.pops.keys())
-                assert self.pops[to_pop]["type"] == tdc.to_pop_type, 'Transfer "%s" has population type "%s", but contains Population "%s", which is type "%s"' % (tdc.full_name, tdc.to_pop_type, to_pop, self.pops[to_pop]["type"])
-                assert from_pop in self.pops, 'Population "%s" in "%s" not recognized. Should be one of: %s' % (from_pop, tdc.full.name, self.pops.keys())
-                assert self.pops[from_pop]["type"] == tdc.from_pop_type, 'Transfer "%s" has population type "%s", but contains Population "%s", which is type "%s"' % (tdc.full_name, tdc.from_pop_type, from_pop, self.pops[from_pop]["type"])
-                assert ts.has_data, "Data values missing for transfer %s, %s->%s" % (tdc.full_name, to_pop, from_pop)
-                assert ts.units is not None, "Units are missing for transfer %s, %s->%s" % (tdc.full_name, to_pop, from_pop)
+                if not (to_pop in self.pops):
+                    raise InvalidDatabook('Population "%s" in "%s" not recognized. Should be one of: %s' % (to_pop, tdc.full_name, self.pops.keys()))
+                if not (self.pops[to_pop]["type"] == tdc.to_pop_type):
+                    raise InvalidDatabook('Transfer "%s" has population type "%s", but contains Population "%s", which is type "%s"' % (tdc.full_name, tdc.to_pop_type, to_pop, self.pops[to_pop]["type"]))
+                if not (from_pop in self.pops):
+                    raise InvalidDatabook('Population "%s" in "%s" not recognized. Should be one of: %s' % (from_pop, tdc.full_name, self.pops.keys()))
+                if not (self.pops[from_pop]["type"] == tdc.from_pop_type):
+                    raise InvalidDatabook('Transfer "%s" has population type "%s", but contains Population "%s", which is type "%s"' % (tdc.full_name, tdc.from_pop_type, from_pop, self.pops[from_pop]["type"]))
+                if not (ts.has_data):
+                    raise InvalidDatabook("Data values missing for transfer %s, %s->%s" % (tdc.full_name, to_pop, from_pop))
+                if not (ts.units is not None):
+                    raise InvalidDatabook("Units are missing for transfer %s, %s->%s" % (tdc.full_name, to_pop, from_pop))
         return True
 
     def to_workbook(self) -> tuple:
